@@ -22,6 +22,8 @@ def get_if_statement_conditions(lAllTokens, oTokenMap, fRemoveWhitespace=True):
         if fRemoveWhitespace:
             iStartIndex, lTemp = utils.remove_leading_whitespace_and_comments(iStart, lTemp)
             lTemp = utils.remove_trailing_whitespace_and_comments(lTemp)
+            if len(lTemp) == 0:
+                continue
 
         iLine = oTokenMap.get_line_number_of_index(iStartIndex)
 
